@@ -162,9 +162,10 @@ def parse(query):
     return Stmt(norm, holes, _cache[key])
 
 
-class SQLSyntax(Exception):
-    """Raised when the text is not valid SQL in the modelled subset.  For statements built by
-    the code under analysis this is reported as sqlite3.OperationalError would be."""
+class SQLSyntax(Undecided):
+    """The text is not SQL of the modelled subset (or is malformed).  An engine signal: interpreted code can
+    never catch it; where a unit catches it explicitly it becomes a failed 'valid SQL' clause, anywhere else
+    the unit is undecided."""
 
 
 # --------------------------------------------------------------------------------------
